@@ -268,6 +268,9 @@ structure Prims (W : Type) where
   cmEnter : W → Nat → W                     -- `cm(i).__enter__()`
   cmExit : W → Nat → Option Cls → W × Val   -- `cm(i).__exit__(type|None, ..)`, its result
   call : W → W × CallRes := fun w => (w, .val .none)   -- calling the program's function `Fn.user` (a nested `RunFrame`)
+  /-- the consumer of a generator receives a yielded value (`Generator.resume` returns it to `next()`); it then
+  resumes the frame with `next()` again (sends `None`) -/
+  yielded : W → Val → W := fun w _ => w
 
 structure VM (W : Type) where
   pc : Nat                 -- frame.Lasti as an instruction index
@@ -355,6 +358,7 @@ inductive Instr
   | storeFast (v : String) | deleteFast (v : String)
   | compareExcMatch | buildTuple (n : Nat)
   | raiseVarargs (n : Nat) | returnValue
+  | yieldValue
 deriving DecidableEq, Repr, Inhabited
 
 inductive Res (W : Type)
@@ -583,6 +587,11 @@ def exec {W} (P : Prims W) (i : Instr) (ln : Nat) (vm : VM W) : Res W :=
     match vm.stack with
     | v :: rest => .ok { vm with stack := rest, retval := v, why := .ret }
     | [] => .panic "stack underflow"
+  | .yieldValue =>
+    -- `vm.retval = vm.POP(); vm.frame.Yielded = true; vm.why = whyYield`
+    match vm.stack with
+    | v :: rest => .ok { vm with stack := rest, retval := v, why := .yield }
+    | [] => .panic "stack underflow"
 
 abbrev Code := List (Instr × Nat)
 
@@ -605,8 +614,21 @@ def frameExit {W} (vm : VM W) : Exit W :=
   else if vm.curexc.isSet then .exc vm.curexc vm.world
   else .ret rv vm.world
 
+/-- A generator frame that has yielded (`if vm.why == whyYield { goto fast_yield }`: the block stack
+is NOT unwound, `frame.Exc = *vm.exc`, `vm.retval` goes to the consumer) and is resumed by the
+consumer's next `next()` (`Generator.resume`: `Frame.Stack = append(Frame.Stack, None)`, then
+`RunFrame(frame)` again).  What survives is the FRAME: `Lasti`, the value stack, the block stack and
+(`frame.Exc`, restored into `vm.ownExc`) the handled exception.  The registers of the `Vm` value do
+not: `RunFrame` starts with a fresh `Vm{}` - `why = whyNot`, `retval = nil`, `curexc` unset.  So a
+`return`/`continue` parked on the value stack across a finally body survives a yield inside that
+body, the register `vm.retval` does not. -/
+def resumeGen {W} (P : Prims W) (vm : VM W) : VM W :=
+  { vm with why := .not, retval := .nil, curexc := {}, stack := .none :: vm.stack,
+            world := P.yielded vm.world vm.retval }
+
 /-- One transition of `RunFrame`: dispatch an instruction (why = whyNot), or one iteration of the
-unwinding loop (why ≠ whyNot and a block is left), or leave the frame. -/
+unwinding loop (why ≠ whyNot and a block is left), or leave the frame; for a generator frame
+also: hand a yielded value to the consumer and be resumed (`resumeGen`). -/
 def step {W} (P : Prims W) (code : Code) (vm : VM W) : Step W :=
   if vm.why = .not then
     match code[vm.pc]? with
@@ -616,6 +638,7 @@ def step {W} (P : Prims W) (code : Code) (vm : VM W) : Step W :=
       | .ok vm' => .next vm'
       | .panic m => .done (.panic m)
       | .unsupported m => .done (.unsupported m)
+  else if vm.why = .yield then .next (resumeGen P vm)
   else
     match vm.blocks with
     | [] => .done (frameExit vm)
@@ -681,6 +704,7 @@ inductive Stmt
   | pass (ln : Nat)
   | ev (ln i : Nat)                                 -- `ev(i)`
   | ret (ln i : Nat)                                -- `return ev(i)`
+  | yieldS (ln i : Nat)                             -- `yield ev(i)` (expression statement; makes `f` a generator)
   | raise (ln : Nat) (c : Cls)                      -- `raise C`
   | reraise (ln : Nat)                              -- bare `raise`: re-raise the exception being handled
   | raiseX (ln : Nat) (f : RaiseForm)               -- `raise C(k)` / `raise C from D` / `raise k`
@@ -722,7 +746,7 @@ def handlerLen (m : Matcher) (hlen : Nat) : Nat :=
 /-- number of instructions emitted for a statement -/
 def len : Stmt → Nat
   | .skip => 0 | .pass _ => 0
-  | .ev _ _ => 4 | .ret _ _ => 4 | .raise _ _ => 2 | .brk _ => 1 | .cont _ => 1
+  | .ev _ _ => 4 | .ret _ _ => 4 | .yieldS _ _ => 5 | .raise _ _ => 2 | .brk _ => 1 | .cont _ => 1
   | .reraise _ => 1 | .raiseX _ f => f.len
   | .seq a b => len a + len b
   | .ifS _ _ b o => 5 + len b + len o
@@ -736,7 +760,7 @@ def len : Stmt → Nat
 /-- `c.Lineno` after compiling the statement, given its value before -/
 def endLine : Nat → Stmt → Nat
   | cur, .skip => cur
-  | _, .pass ln => ln | _, .ev ln _ => ln | _, .ret ln _ => ln | _, .raise ln _ => ln
+  | _, .pass ln => ln | _, .ev ln _ => ln | _, .ret ln _ => ln | _, .yieldS ln _ => ln | _, .raise ln _ => ln
   | _, .brk ln => ln | _, .cont ln => ln | _, .reraise ln => ln | _, .raiseX ln _ => ln
   | cur, .seq a b => endLine (endLine cur a) b
   | _, .ifS ln _ b o => endLine (endLine ln b) o
@@ -786,6 +810,7 @@ def compS : Ctx → Nat → Nat → Stmt → Code
   | _, _, _, .pass _ => []
   | _, _, _, .ev ln i => callProbe .ev i ln ++ [(.popTop, ln)]
   | _, _, _, .ret ln i => callProbe .ev i ln ++ [(.returnValue, ln)]
+  | _, _, _, .yieldS ln i => callProbe .ev i ln ++ [(.yieldValue, ln), (.popTop, ln)]
   | _, _, _, .raise ln c => [(.loadGlobal (.cls c), ln), (.raiseVarargs 1, ln)]
   | _, _, _, .reraise ln => [(.raiseVarargs 0, ln)]
   | _, _, _, .raiseX ln (.inst c k) =>
@@ -856,7 +881,7 @@ def hasLoop : Ctx → Bool
 stack, positions) as `compS` -/
 def compErr : Ctx → Nat → Stmt → Option String
   | _, _, .skip | _, _, .pass _ | _, _, .ev _ _ | _, _, .ret _ _ | _, _, .raise _ _ => none
-  | _, _, .reraise _ | _, _, .raiseX _ _ => none
+  | _, _, .reraise _ | _, _, .raiseX _ _ | _, _, .yieldS _ _ => none
   | ctx, _, .brk _ => if hasLoop ctx then none else some "'break' outside loop"
   | ctx, _, .cont _ => match contInstr ctx with
     | some _ => none
